@@ -298,3 +298,22 @@ MANIFEST_TEXT["C20"] = dict(
     technique="TLA+ reference semantics predicting the resolver-call multiset, replayed with instrumented callbacks and plan-reuse histories")
 
 NOT_APPLICABLE = {}
+
+
+# ------------------------------------------------------------------ plug-ins
+# bin/props_<ID>.py files contribute PROPS / MANIFEST_TEXT / NOT_APPLICABLE entries.
+def _load_plugins():
+    import glob
+    import importlib.util
+    import sys
+    sys.modules.setdefault("props", sys.modules[__name__])
+    for f in sorted(glob.glob(os.path.join(VERIF, "bin", "props_*.py"))):
+        spec = importlib.util.spec_from_file_location(os.path.basename(f)[:-3], f)
+        mod = importlib.util.module_from_spec(spec)
+        spec.loader.exec_module(mod)
+        PROPS.update(getattr(mod, "PROPS", {}))
+        MANIFEST_TEXT.update(getattr(mod, "MANIFEST_TEXT", {}))
+        NOT_APPLICABLE.update(getattr(mod, "NOT_APPLICABLE", {}))
+
+
+_load_plugins()
